@@ -324,7 +324,7 @@ def run(ctx):
         try:
             mc_res["main"] = ctx.tlc("PathSafeMC", "C20_mc.cfg" if ctx.thorough else "C20_mc_quick.cfg", workers=6,
                                      label="PathSafeMC: containment + step/closed-form agreement, whole scenario space", timeout=1500)
-            for cfg, lab in (("C20_mc_s15.cfg", "what-if: ManifestDelete without Validate (S15)"),
+            for cfg, lab in (("C20_mc_s15.cfg", "switch: ManifestDelete without Validate (variant before fix 3b8373e, S15)"),
                              ("C20_mc_links.cfg", "what-if: links materialised behind a lexical guard"),
                              ("C20_mc_stripdots.cfg", "what-if: title cleaned by stripping leading ../")):
                 r = ctx.tlc("PathSafeMC", cfg, workers=2, label=lab, allow_violation=True, timeout=600)
@@ -336,15 +336,17 @@ def run(ctx):
     th = threading.Thread(target=mc)
     th.start()
 
-    with concurrent.futures.ThreadPoolExecutor(max_workers=4) as ex:
+    with concurrent.futures.ThreadPoolExecutor(max_workers=5) as ex:
         f_gen = ex.submit(ctx.tlc_scenarios, "PathSafeGen", "C20_gen.cfg" if ctx.thorough else "C20_gen_quick.cfg", workers=4,
                           label="scenario space of PathSafe", timeout=1500)
         f_links = ex.submit(ctx.tlc_scenarios, "PathSafeGen", "C20_gen_links.cfg", workers=2, label="link archives, verdict if materialised")
+        f_lay = ex.submit(ctx.tlc_scenarios, "PathSafeGen", "C20_gen_lay.cfg", workers=2,
+                          label="layout scenarios, verdict of the model of the code")
         f_asis = ex.submit(ctx.tlc_scenarios, "PathSafeGen", "C20_gen_lay_asis.cfg", workers=2,
-                           label="layout scenarios, verdict of the as-found model")
+                           label="layout scenarios, verdict of the variant before the ManifestDelete fix (switch)")
         f_lex = ex.submit(ctx.tlc_scenarios, "PathSafeGen", "C20_gen_links_lex.cfg", workers=2,
                           label="link archives, verdict if materialised behind a lexical guard")
-        gen, raw_links, asis, lex_links = f_gen.result(), f_links.result(), f_asis.result(), f_lex.result()
+        gen, raw_links, asis, lex_links, lay = f_gen.result(), f_links.result(), f_asis.result(), f_lex.result(), f_lay.result()
     space = gen["scenarios"]
     vlib.log("C20: %d scenarios generated at %.0fs" % (len(space), time.time() - ctx.t0))
     dangerous = {json.dumps(s["ents"], sort_keys=True) for s in raw_links["scenarios"] if s["esc"] == 1}
@@ -352,6 +354,11 @@ def run(ctx):
     if not subtle or not subtle <= dangerous or len(dangerous) < 500:
         raise vlib.ToolError("link archive classification by the model looks wrong: %d dangerous, %d subtle" % (len(dangerous), len(subtle)))
     asis_esc = {(s["op"], s["h"], s["place"], s["wm"], s["chk"]) for s in asis["scenarios"] if s["esc"] == 1}
+    model_esc = {(s["op"], s["h"], s["place"], s["wm"], s["chk"]) for s in lay["scenarios"] if s["esc"] == 1}
+    if model_esc or len(lay["scenarios"]) != len(asis["scenarios"]):
+        raise vlib.ToolError("the model of the code says a layout scenario escapes: %s" % sorted(model_esc)[:3])
+    if not asis_esc:
+        raise vlib.ToolError("the ManifestDelete switch of the model no longer produces an escape")
     by = {}
     for s in space:
         by.setdefault(s["ep"], []).append(s)
@@ -359,7 +366,7 @@ def run(ctx):
     if total.get("lay", 0) < 500 or total.get("art", 0) < 20000 or total.get("lnk", 0) < 5000:
         raise vlib.ToolError("scenario space too small: %s" % total)
     if any(s["esc"] for s in asis["scenarios"] if s["op"] != "ManifestDelete"):
-        raise vlib.ToolError("the as-found model says a layout operation other than ManifestDelete escapes")
+        raise vlib.ToolError("the variant before the fix says a layout operation other than ManifestDelete escapes")
 
     def short(s):
         return len(s["segs"]) <= 2
@@ -592,11 +599,15 @@ def run(ctx):
             ctx.report(sig_of(s, detail), "%s; hostile input %r" % (what, hostile[:120]),
                        {"scenario": scn_small, "hostile_input": hostile[:400], "rejected_event": e, "error_returned": fa["err"],
                         "designated": fa["out"], "facts_of_scenario": same[:40], "rejected_by": how})
-    # agreement of the as-found model with the real code on layout scenarios (information, not a verdict)
-    model_vs_code = {"model_asis_predicts_escape": len(asis_esc), "code_escaped": len(observed_escape_lay),
-                     "predicted_and_observed": len(asis_esc & observed_escape_lay),
-                     "observed_not_predicted": sorted(map(list, observed_escape_lay - asis_esc))[:10],
-                     "predicted_not_observed": sorted(map(list, asis_esc - observed_escape_lay))[:10]}
+    # agreement of the model of the code with the real code on layout scenarios (information, not a verdict); escapes the
+    # code shows are matched against the switch DeleteValidates = FALSE (the variant before fix 3b8373e) to explain them
+    model_vs_code = {"model_predicts_escape": len(model_esc), "code_escaped": len(observed_escape_lay),
+                     "predicted_and_observed": len(model_esc & observed_escape_lay),
+                     "observed_not_predicted": sorted(map(list, observed_escape_lay - model_esc))[:10],
+                     "predicted_not_observed": sorted(map(list, model_esc - observed_escape_lay))[:10],
+                     "switch_before_fix_predicts_escape": len(asis_esc),
+                     "observed_explained_by_switch_before_fix": len(asis_esc & observed_escape_lay),
+                     "observed_matches_switch_exactly": bool(observed_escape_lay) and observed_escape_lay == asis_esc}
 
     # ---- binding demos: corrupt one accepted fact, the monitor must reject
     clean = logs
